@@ -19,7 +19,8 @@ for m in cmd/ocisrv internal/ci ociregistry ociregistry/internal/conformance; do
 [ -n "$demo" ] && mv "$W/.aside/demo.go.txt" "$W/$demo"
 echo "== suite with change: $suite"
 # 2. demo with and without
-run_demo() { (cd "$W/ociregistry" && bash -c "$democmd") >/dev/null 2>&1; }
+demodir="$W/ociregistry"; case "$democmd" in "cd ociregistry"*|"cd ./ociregistry"*) demodir="$W";; esac
+run_demo() { (cd "$demodir" && bash -c "$democmd") >/dev/null 2>&1; }
 with=pass; for i in 1 2 3; do run_demo || { with=FAIL; break; }; done
 (cd "$W" && git apply -R patch.diff) || echo "!! cannot reverse patch.diff"
 without=pass; run_demo || without=FAIL
@@ -28,7 +29,7 @@ echo "== demo with change: $with (want FAIL) ; without: $without (want pass)"
 # 3. checks
 caught=""
 for c in "$@"; do
-  out=$(cd /verif && VERIF_REPO="$W" VERIF_OUT="$W/.out" ./run "$c" quick 2>&1); code=$?
+  out=$(cd /verif && VERIF_WD_Q=${VERIF_WD_Q:-300} VERIF_REPO="$W" VERIF_OUT="$W/.out" ./run "$c" quick 2>&1); code=$?
   keys=$(echo "$out" | grep '^  key=' | sed 's/^  key=//' | cut -d: -f1 | head -6 | tr '\n' ' ')
   echo "== $c exit=$code keys: $keys"
   echo "$out" | grep -E "^  key=|INCONCLUSIVE|HARNESS" | cut -c1-260 | head -4
